@@ -191,12 +191,13 @@ def broadcast_shapes(*args: t.Sequence[int]) -> t.Tuple[int, ...]:
     # our own implementation, with worse error messages
     out_shape: t.List[int] = []
     for ax_lens in zip_longest(*(reversed(arg) for arg in args), fillvalue=1):
-        bcast = max(ax_lens)
-        if not all(ax_len in (1, bcast) for ax_len in ax_lens):
+        # lengths other than 1 must agree (an axis of length 1 stretches to any length, 0 included)
+        lens = set(ax_lens) - {1}
+        if len(lens) > 1:
             shapes = [f"'{tuple(arg)!r}'" for arg in args]
             raise ValueError(f"Couldn't broadcast shapes {list_phrase(shapes, 'and')}")
-        out_shape.append(bcast)
-    return tuple(out_shape)
+        out_shape.append(lens.pop() if lens else 1)
+    return tuple(reversed(out_shape))
 
 
 def is_broadcastable(*args: t.Sequence[int]) -> bool:
